@@ -870,3 +870,98 @@ def rule_no_lf_only_matching(rep: Report, repo: Repo, rule: str) -> None:
         raise AnalysisError(f"positive control controls/lf_only.py: {hits} hits, expected 4")
     rep.ok(rule, "controls/lf_only.py", "positive control matched 4 LF-only operations, none of the 4 CR-aware / line-structure twins")
     rep.ok(rule, "cminx.*", f"{n} LF-only matching operations in {len(HAND_WRITTEN)} modules")
+
+
+# ----------------------------------------------------------------------
+def finally_discards(tree: ast.AST):
+    """break / continue / return lexically inside a `finally` block (not inside a nested function or a loop that the finally
+    itself contains for break/continue): they discard the exception in flight."""
+    out = []
+    for t in ast.walk(tree):
+        if isinstance(t, ast.Try) and t.finalbody:
+            def scan(stmts, in_loop):
+                for st in stmts:
+                    for n in [st]:
+                        if isinstance(n, (ast.FunctionDef, ast.AsyncFunctionDef, ast.ClassDef)):
+                            continue
+                        if isinstance(n, ast.Return):
+                            out.append((n, "return"))
+                        elif isinstance(n, (ast.Break, ast.Continue)) and not in_loop:
+                            out.append((n, "break" if isinstance(n, ast.Break) else "continue"))
+                        for fld in ("body", "orelse", "finalbody"):
+                            blk = getattr(n, fld, None)
+                            if isinstance(blk, list):
+                                scan(blk, in_loop or isinstance(n, (ast.For, ast.While)))
+                        for h in getattr(n, "handlers", []) or []:
+                            scan(h.body, in_loop)
+            scan(t.finalbody, False)
+    return out
+
+
+def rule_no_finally_discard(rep: Report, repo: Repo, rule: str) -> None:
+    import os
+    from ..core import VERIF_DIR
+    rep.rule(rule, "no break / continue / return inside a finally block anywhere in the package: such a statement silently discards "
+                   "the syntax error (or any other exception) that is propagating")
+    n = 0
+    for mod in HAND_WRITTEN:
+        m = repo.module(mod)
+        tree = getattr(m, "orig_tree", None) or m.tree
+        for node, kind in finally_discards(tree):
+            n += 1
+            rep.bad(rule, mod, f"`{kind}` inside finally (line {getattr(node, 'lineno', '?')})",
+                    "an exception raised in the try body (a syntax error of the file being documented) is swallowed: the run ends "
+                    "with status 0 and the remaining files are skipped silently", witness="cminx dir/  with one malformed file, without -r")
+    ctrl = ast.parse(open(os.path.join(VERIF_DIR, "controls", "finally_discard.py")).read())
+    hits = len(finally_discards(ctrl))
+    if hits != 3:
+        raise AnalysisError(f"positive control controls/finally_discard.py: {hits} hits, expected 3")
+    rep.ok(rule, "controls/finally_discard.py", "positive control matched 3 discarding statements, none in the harmless twin")
+    rep.ok(rule, "cminx.*", f"{n} discarding statement(s) in finally blocks")
+
+
+def _mutating_entry_methods(repo: Repo) -> Dict[str, str]:
+    """Methods of the documentation classes that modify the entry they are called on (store to self.<field>, or a mutating
+    list call on self.<field> / on a local alias of it): method name -> what it does."""
+    MUT = {"append", "extend", "insert", "pop", "remove", "clear", "sort", "reverse", "update", "add", "discard"}
+    out: Dict[str, str] = {}
+    for ci in repo.classes.values():
+        if ci.module != "cminx.documentation_types":
+            continue
+        for mname, fn in ci.methods.items():
+            if mname.startswith("__"):
+                continue
+            aliases = set()
+            for n in ast.walk(fn):
+                if isinstance(n, ast.Assign) and len(n.targets) == 1 and isinstance(n.targets[0], ast.Name) \
+                        and isinstance(n.value, ast.Attribute) and isinstance(n.value.value, ast.Name) and n.value.value.id == "self":
+                    aliases.add(n.targets[0].id)
+            for n in ast.walk(fn):
+                if isinstance(n, ast.Attribute) and isinstance(n.ctx, ast.Store) and isinstance(n.value, ast.Name) and n.value.id == "self":
+                    out[mname] = f"{ci.name}.{mname} stores self.{n.attr}"
+                if isinstance(n, ast.Call) and isinstance(n.func, ast.Attribute) and n.func.attr in MUT:
+                    r = n.func.value
+                    if (isinstance(r, ast.Name) and r.id in aliases) or \
+                            (isinstance(r, ast.Attribute) and isinstance(r.value, ast.Name) and r.value.id == "self"):
+                        out[mname] = f"{ci.name}.{mname} calls {norm(n)[:40]}"
+    return out
+
+
+def rule_entry_methods_render_only(rep: Report, repo: Repo, rule: str) -> None:
+    """An entry method that modifies the entry (the in-place '**kwargs' append of the signature code) runs once per entry, in the
+    render loop: nothing in the listener calls it."""
+    rep.rule(rule, "methods of the documentation classes that modify their entry are called from the Documenter's render loop and "
+                   "from other documentation classes only, never from the listener: a signature is built exactly once")
+    mut = _mutating_entry_methods(repo)
+    lm = listener_model(repo)
+    ci = repo.cls(lm.cls)
+    n = 0
+    for mname, fn in ci.methods.items():
+        for c in calls_in(fn):
+            if isinstance(c.func, ast.Attribute) and c.func.attr in mut and not (isinstance(c.func.value, ast.Name) and c.func.value.id == "self"):
+                n += 1
+                rep.bad(rule, f"{AGG}:{lm.cls}.{mname}", norm(c)[:70],
+                        f"the listener calls an entry method that modifies the entry ({mut[c.func.attr]}): rendering later repeats the "
+                        f"modification ('**kwargs' appears twice)", witness="the same function() defined twice in one file, with kwargs")
+    rep.ok(rule, f"{AGG}:{lm.cls}", f"{len(mut)} modifying entry method(s) {sorted(mut)}; {n} call(s) from the listener")
+    rep.floor(rule, 1, "entry-method census")
